@@ -42,6 +42,22 @@ def runCase (s : St) : String × Option Measured :=
         let r := marksOk s.start s.oldEnd bf.root ed.root
         ((match r.fail with | none => "ok" | some msg => "FAIL " ++ msg), r)
       | none => ("skipped", ({} : Marks))
+    -- the global marking bound of `marked_total_bound_partial`, its hypotheses evaluated on the real tree
+    let (glob, globS) := match parseDump s.before.toList with
+      | some bf =>
+        let t := bf.root
+        let h := height t
+        let w := s.oldEnd - s.start
+        let reach := reachTotal t s.start s.oldEnd h
+        let bound := (h + 1) * (w + maxLa t + 2) + zerosTotal t h
+        let r := (marksOk s.start s.oldEnd bf.root ed.root).marked
+        let msg :=
+          if !tiles t then "FAIL tiling obligation: some inner node's bytes are not the sum of its children's"
+          else if noCol t && r > reach then s!"FAIL {r} marked nodes but only {reach} nodes reach the edit"
+          else if reach > bound then s!"FAIL {reach} reaching nodes exceed the proved bound {bound}"
+          else "ok"
+        (s!"tiles={if tiles t then 1 else 0} height={h} max_la={maxLa t} zero_width={zerosTotal t h} reach={reach} bound={bound}", msg)
+      | none => ("tiles=- reach=- bound=-", "skipped")
     let bal := balanced nw.root
     let balS := match bal.fail with | none => "ok" | some m => "FAIL " ++ m
     let j := match s.thr.get? (s.lang, s.size) with
@@ -50,8 +66,9 @@ def runCase (s : St) : String × Option Measured :=
         match judgeCase thr m (g "incr_error" == 1) (g "scratch_error" == 1) (g "same_sexp" == 1) (g "lexed") with
         | some msg => "FAIL " ++ msg
         | none => if marks.startsWith "FAIL" then "FAIL marking: " ++ (marks.drop 5).toString
-                  else if balS.startsWith "FAIL" then "FAIL not balanced: " ++ (balS.drop 5).toString else "ok"
-    (s!"{s.id} judge={j} marks={marks} lexed_ppm={m.lexedPpm} bytes_ppm={m.bytesPpm} fresh_ppm={m.freshPpm} freshvis_ppm={m.freshVisPpm} tokens={g "tokens"} lexed={g "lexed"} nodes={sh.nodes} heap={sh.heap} shared={sh.shared} vis_heap={sh.visHeap} vis_shared={sh.visShared} marked={mk.marked} max_marked_kids={mk.maxMarkedKids} depth={mk.maxDepth} chains={bal.chains} chain_max_elems={bal.maxElems} chain_max_height={bal.maxHeight} balance_slack={bal.worstSlack}", some m)
+                  else if balS.startsWith "FAIL" then "FAIL not balanced: " ++ (balS.drop 5).toString
+                  else if globS.startsWith "FAIL" then "FAIL global marking bound: " ++ (globS.drop 5).toString else "ok"
+    (s!"{s.id} judge={j} marks={marks} lexed_ppm={m.lexedPpm} bytes_ppm={m.bytesPpm} fresh_ppm={m.freshPpm} freshvis_ppm={m.freshVisPpm} tokens={g "tokens"} lexed={g "lexed"} nodes={sh.nodes} heap={sh.heap} shared={sh.shared} vis_heap={sh.visHeap} vis_shared={sh.visShared} marked={mk.marked} max_marked_kids={mk.maxMarkedKids} depth={mk.maxDepth} chains={bal.chains} chain_max_elems={bal.maxElems} chain_max_height={bal.maxHeight} balance_slack={bal.worstSlack} {glob}", some m)
   | _, _ => (s!"{s.id} judge=BADINPUT unreadable dump", none)
 
 def growthLines (s : St) : Array String := Id.run do
